@@ -319,6 +319,23 @@ def generic_programs():
         ("super:inherited-field", "Fd f = new Fd(); echo(f.viaSuper()); echo(f.viaThis());", ("ok", ["8", "8"])),
     ]
     progs += [(n, an + "function main() -> void { %s }\n" % b, e) for n, b, e in cases4]
+    # (seed C08-4) inside a method DECLARED in a base class, 'this' is an expression of the base class whatever the receiver's dynamic class:
+    # as an overloaded argument, as the receiver of a private / non-virtual method the subclass also has, as the receiver of a call
+    # for which the subclass adds a more specific overload
+    th = ("class Doc { public constructor() -> Doc = default; }\nclass Vt extends Doc { public constructor() -> Vt { super(); } }\n"
+          "class Rg { public constructor() -> Rg = default; public function add(An a) -> void { echo(\"add(An)\"); } public function add(Dg d) -> void { echo(\"add(Dg)\"); } public function add(Pp p) -> void { echo(\"add(Pp)\"); } }\n"
+          "class An { public constructor() -> An = default; public function enrol(Rg r) -> void { r.add(this); } private function secret() -> string { return \"an-secret\"; } "
+          "public function reveal() -> string { return this.secret(); } public virtual function see(Doc d) -> string { return \"An.see(Doc)\"; } public function visit(Vt v) -> string { return this.see(v); } "
+          "public function self() -> An { return this; } }\n"
+          "class Dg extends An { public constructor() -> Dg { super(); } private function secret() -> string { return \"dg-secret\"; } public function see(Vt v) -> string { return \"Dg.see(Vt)\"; } public function mine(Rg r) -> void { r.add(this); } }\n"
+          "class Pp extends Dg { public constructor() -> Pp { super(); } }\n")
+    progs += [(n, th + "function main() -> void { Rg r = new Rg(); %s }\n" % b, ("ok", e)) for n, b, e in [
+        ("this:overloaded-argument-from-inherited-method", "An a = new An(); Dg d = new Dg(); Pp p = new Pp(); a.enrol(r); d.enrol(r); p.enrol(r); d.mine(r); p.mine(r); r.add(d); r.add(p); An v = p; r.add(v);",
+         ["add(An)", "add(An)", "add(An)", "add(Dg)", "add(Dg)", "add(Dg)", "add(Pp)", "add(An)"]),
+        ("this:private-method-of-declaring-class", "An a = new An(); Dg d = new Dg(); Pp p = new Pp(); echo(a.reveal()); echo(d.reveal()); echo(p.reveal());", ["an-secret", "an-secret", "an-secret"]),
+        ("this:overload-set-of-declaring-class", "Dg d = new Dg(); Pp p = new Pp(); echo(d.visit(new Vt())); echo(p.visit(new Vt())); echo(d.see(new Vt())); An v = d; echo(v.see(new Vt()));", ["An.see(Doc)", "An.see(Doc)", "Dg.see(Vt)", "An.see(Doc)"]),
+        ("this:returned-from-inherited-method", "Dg d = new Dg(); r.add(d.self()); An s = d.self(); r.add(s);", ["add(An)", "add(An)"]),
+    ]]
     # (second hunt, C12/d4, C08/d13) static initialisers inside ONE class that read or write a later static of the same class
     progs += [
         ("static:earlier-initialiser-writes-later-field", "class Sx { public static int early = Sx.bump(); public static int n = 10; public static function bump() -> int { n = n + 1; return n; } public constructor() -> Sx = default; }\n"
